@@ -478,6 +478,10 @@ def run(ctx):
     ctx.rules_run.append('F-LOOP / F-MINCONSUME: every loop in a decode path contains an input-consuming call; every Decode impl consumes on the way to Ok')
     f_loop(ctx, prog, reach)
     f_minconsume(ctx, prog)
+    ctx.rules_run.append('T-TOKENIZER (shared with C11): tokenisation ends after an error whoever owns the decoder: Tokenizer::token drains the input on every error return; next() maps only end-of-input to None')
+    if not load.ALIAS:
+        from . import c11
+        c11.tokenizer_rules(ctx, prog)
     # positive controls
     try:
         from . import controls
